@@ -462,6 +462,8 @@ class NetworkGraph(AbstractBaseIR):
             inputs = self[f"{node}/{succ}"]['inputs']
             if var not in inputs:
                 inputs[var] = {'sources': {op}}
+            # operators of the same node keep reading the undelayed variable, not the operator's new (buffered) output
+            inputs[var]['var'] = var
 
         # Point the edge at the buffered source variable
         self.edges[s, t, e]['source_var'] = f"{op}/{buf_out}"
@@ -694,6 +696,8 @@ class NetworkGraph(AbstractBaseIR):
             inputs = self[f"{node}/{succ}"]['inputs']
             if var not in inputs.keys():
                 inputs[var] = {'sources': {op}}
+            # operators of the same node keep reading the undelayed variable, not the operator's new (buffered) output
+            inputs[var]['var'] = var
 
         # update edge information
         idx_l = 0
